@@ -208,7 +208,7 @@ func c06Run(c *core.Ctx, scn stopScn, h *hist.History, l *hist.Layout, tables []
 	// stream went on and delivered exactly the whole history up to the
 	// master's EOF, nothing failed and the attempt is judged as an EOF ending.
 	if cls == "unsupported-event" && streamErr == nil {
-		if run.CompareAll(hist.Expect(h, l, start), res.Delivered, false) == nil {
+		if exp := hist.Expect(h, l, start); wholeHistoryDelivered(exp, res.Delivered) {
 			c.Cell("unsupported-event-tolerated(judged as eof)")
 			cls = "eof"
 		}
@@ -251,4 +251,18 @@ func c06Run(c *core.Ctx, scn stopScn, h *hist.History, l *hist.Layout, tables []
 	if c.WantSample() {
 		c.Sample(map[string]interface{}{"scenario": scn, "stream": errStr(streamErr), "error": errStr(errErr)})
 	}
+}
+
+// wholeHistoryDelivered: one delivery per expected transaction, ending where
+// the model says (contents are C01's business, not C06's).
+func wholeHistoryDelivered(exp []hist.ExpTx, got []*run.Delivered) bool {
+	if len(exp) != len(got) {
+		return false
+	}
+	for i := range exp {
+		if got[i].Next != exp[i].Next {
+			return false
+		}
+	}
+	return true
 }
